@@ -429,6 +429,7 @@ def classify_interleaved(case, info):
     labels = ["producers=%d" % len(case["producers"]), "switches=%d" % min(info["switches"], 8), "stop-waits" if case["wait_for_producers"] else "stop-races-producers"]
     if info["switch_inside"]:
         labels.append("preempted-inside-writer-code")
+    labels.append("granularity:bytecode" if case.get("opcodes") else "granularity:line")
     return info["switch_inside"] >= 1 and info["offered"] >= 2, labels
 
 
